@@ -543,7 +543,7 @@ pub fn explore(tier: Tier) -> (Acc, Value, u64, u64) {
             inputs.push(s);
         }
     }
-    for extra in ["pkg:t/n?checksum=B:FF,a:0A", "pkg:t/n?checksum=zz", "pkg:t/n?k=v&K2=w#a/../b", "pkg:t/ns/n@1?k=&l=x", "pkg:t/%80", "pkg:t/n?k", "pkg:!/n", "pkg:t", "t/n", "pkg:t/n@%zz", "pkg:t/a%2Fb/n"] {
+    for extra in ["pkg:%74/n", "pkg:%54/n@1", "pkg:t%2Ex/n", "pkg:t%2ex/ns/n?k=v", "pkg:%21/n", "pkg:t/n?checksum=B:FF,a:0A", "pkg:t/n?checksum=zz", "pkg:t/n?k=v&K2=w#a/../b", "pkg:t/ns/n@1?k=&l=x", "pkg:t/%80", "pkg:t/n?k", "pkg:!/n", "pkg:t", "t/n", "pkg:t/n@%zz", "pkg:t/a%2Fb/n"] {
         inputs.push(extra.to_owned());
     }
     let binputs = builder_inputs();
